@@ -118,6 +118,32 @@ def pluckClassVarName : Str → Str
       | none => pluckClassVarName cs
     else pluckClassVarName cs
 
+/-! ### `Py2Cpp.is_initializer_call` (py2cpp.py:692-697, added by dbbf835) -/
+
+/-- the scan of `BlockParser.break_last_block(text, '()')` (view/helper/block.py:315-343): position of the `(` that opens the
+    LAST top-level block, `none` when there is no complete top-level block (`ranges[-1]` raises IndexError). -/
+def lastBlockOpen : Str → Nat → Nat → Nat → Option Nat → Option Nat
+  | [], _, _, _, last => last
+  | c :: cs, index, begin, stack, last =>
+    if c = '(' ∧ stack = 0 then lastBlockOpen cs (index + 1) index 1 last
+    else if c = '(' then lastBlockOpen cs (index + 1) begin (stack + 1) last
+    else if c = ')' ∧ stack = 1 then lastBlockOpen cs (index + 1) begin 0 (some begin)
+    else if c = ')' ∧ stack > 1 then lastBlockOpen cs (index + 1) begin (stack - 1) last
+    else lastBlockOpen cs (index + 1) begin stack last
+
+/-- `BlockParser.break_last_block(value, '()')[0]`: the text before the last top-level `(...)` block -/
+def lastBlockPrefix (value : Str) : Option Str := (lastBlockOpen value 0 0 0 none).map (fun i => value.take i)
+
+/-- `is_initializer_call(value, var_type)`; `none` = IndexError of `break_last_block`. -/
+def isInitializerCall (value varType : Str) : Option Bool :=
+  if !Str.startsWith value (varType ++ ['(']) || !Str.endsWith value [')'] then some false
+  else (lastBlockPrefix value).map (fun p => decide (p = varType))
+
+/-- REGRESSION (seeded mutation): the prefix test without its `(` and "no other call before the trailing argument block". -/
+def isInitializerCallBroken (value varType : Str) : Option Bool :=
+  if !Str.startsWith value varType || !Str.endsWith value [')'] then some false
+  else (lastBlockPrefix value).map (fun p => !p.contains '(')
+
 /-- a non-empty run of word characters (an identifier token as far as these patterns are concerned) -/
 def Word (w : Str) : Prop := w ≠ [] ∧ ∀ c ∈ w, isWord c = true
 
